@@ -207,7 +207,18 @@ impl<Rounds: Unsigned + Default> NewCipher for ChaChaAny<U24, Rounds, X> {
 impl<NonceSize: Unsigned, Rounds, IsX> StreamCipherSeek for ChaChaAny<NonceSize, Rounds, IsX> {
     #[inline]
     fn try_current_pos<T: SeekNum>(&self) -> Result<T, OverflowError> {
-        unimplemented!()
+        // blocks handed out so far (including the buffered one), from the number of blocks left
+        let used: u128 = if NonceSize::U32 == 12 {
+            u128::from(SMALL_LEN - self.state.len)
+        } else if self.state.len == BIG_LEN && !self.state.fresh {
+            1 << 64
+        } else {
+            u128::from(BIG_LEN.wrapping_sub(self.state.len))
+        };
+        // `have` is the number of unread bytes of the last block, or minus the offset into a
+        // block that has not been generated yet
+        let pos = (used * u128::from(BLOCK64)) as i128 - i128::from(self.state.have);
+        T::try_from(pos as u128).map_err(|_| OverflowError)
     }
     #[inline(always)]
     fn try_seek<T: SeekNum>(&mut self, pos: T) -> Result<(), LoopError> {
